@@ -261,7 +261,7 @@ def run(ctx):
                         flavors = ["MomentumArray4D", "VectorArray4D", "MomentumObject3D", "VectorNumpy2D"]
                     for cn in flavors:
                         cases.append((f + extra, R, nv, cn))
-    jobs = min(16, os.cpu_count() or 1)
+    jobs = min(int(os.environ.get("VERIF_JOBS", "16")), os.cpu_count() or 1)
     chunks = [(str(ctx.repo), cases[i::jobs * 2]) for i in range(jobs * 2)]
     total = 0
     bad = []
@@ -286,6 +286,7 @@ def run(ctx):
 _KERNEL_NODES = {
     "FunctionDef", "arguments", "arg", "Return", "Assign", "Expr", "Name", "Load", "Store", "Constant", "Tuple", "Attribute", "Call", "keyword",
     "BinOp", "Add", "Sub", "Mult", "Div", "Mod", "Pow", "BitAnd", "BitOr", "UnaryOp", "USub", "UAdd", "Compare", "Eq", "NotEq", "Lt", "Gt", "LtE", "GtE",
+    "Starred",  # only `*name` with name bound once to a tuple display in the same function (checked below): the expansion is the same for every backend
 }
 _WHY = {
     "AugAssign": "an augmented assignment mutates a NumPy/Awkward operand in place where it rebinds a Python number",
@@ -332,6 +333,10 @@ def _duck_typed_kernels(ctx, rule="C03.duck-typed-kernels"):
                 bad.append((sub.lineno, "chained comparison", "a < b < c is `and` of two comparisons: truth value of a whole array"))
             elif isinstance(sub, ast.Assign) and not all(isinstance(t, ast.Name) or (isinstance(t, ast.Tuple) and all(isinstance(x, ast.Name) for x in t.elts)) for t in sub.targets):
                 bad.append((sub.lineno, "store into an attribute/item", "kernels only bind local names"))
+            elif isinstance(sub, ast.Starred):
+                binds = [st.value for st in ast.walk(node) if isinstance(st, ast.Assign) and any(isinstance(t, ast.Name) and isinstance(sub.value, ast.Name) and t.id == sub.value.id for t in st.targets)]
+                if not (isinstance(sub.value, ast.Name) and len(binds) == 1 and isinstance(binds[0], ast.Tuple)):
+                    bad.append((sub.lineno, "star-expansion of a value", "*x iterates over x: element-wise only for a tuple built in the kernel itself"))
             elif isinstance(sub, ast.Expr) and not (isinstance(sub.value, ast.Constant) and isinstance(sub.value.value, str)):
                 bad.append((sub.lineno, "expression statement", "a call evaluated for its side effect"))
             if isinstance(sub, ast.Call):
